@@ -182,7 +182,9 @@ PROPS["C19"] = {
                           "verify_msg_unique", "shape_mismatch_rejected", "length_mismatch_rejected", "kstep_refines", "kstep_sorted", "list_exact",
                           "wrong_pass_no_effect", "import_wrong_pass_no_effect", "import_existing_refused", "export_import_roundtrip",
                           "create_then_use", "delete_exact")],
-    "t1": [{"family": "keys", "model": "keys", "quick_n": 4000, "thorough_n": 400000, "corpus": "keys", "reset_token": "kb.new"}],
+    "t1": [{"family": "keys", "model": "keys", "quick_n": 4000, "thorough_n": 400000, "corpus": "keys", "reset_token": "kb.new"},
+           # the same stream against the on-disk keybase (keys.New: the database is opened anew for every operation)
+           {"family": "keys", "model": "keys", "profile": "lazy", "quick_n": 400, "thorough_n": 60000, "corpus": "none", "reset_token": "kb.new"}],
     "rule": "two streams on the real crypto package: (1) multisignature verification of random key trees (ed25519 and secp256k1 leaves, nesting to "
             "depth 3, 0..4 components per node) against the genuine positional signature or a damaged one (component dropped, duplicated, swapped, "
             "replaced by a signature of another key / message / garbage / empty bytes, re-nested, signature of an unrelated key tree); each accepted "
